@@ -45,17 +45,31 @@ func (ni *Native) Match(input MatchInput) (bool, error) {
 func (ni *Native) Update(input UpdateInput) error {
 	updater, found := ni.updateExpressions[registryKey(input.TableName, input.Expression)]
 	if !found {
-		return fmt.Errorf(
-			"%w: updater not found for %q expression in table %q",
-			ErrUnsupportedFeature,
-			input.Expression,
-			input.TableName,
-		)
+		return ni.updaterNotFound(input.TableName, input.Expression)
 	}
 
 	updater(input.Item, input.Attributes)
 
 	return nil
+}
+
+// CheckUpdater returns the unsupported-feature error of an update expression no updater is
+// registered for
+func (ni *Native) CheckUpdater(tablename, expr string) error {
+	if _, found := ni.updateExpressions[registryKey(tablename, expr)]; !found {
+		return ni.updaterNotFound(tablename, expr)
+	}
+
+	return nil
+}
+
+func (ni *Native) updaterNotFound(tablename, expr string) error {
+	return fmt.Errorf(
+		"%w: updater not found for %q expression in table %q",
+		ErrUnsupportedFeature,
+		expr,
+		tablename,
+	)
 }
 
 // HasMatcher tells whether a matcher is registered for the table, expression type and expression
